@@ -46,6 +46,21 @@ def build_file(R, pkts, msgs):
     return lines
 
 
+def simple_opts(hx):
+    """NOP / MSS / WS / SACKOK / TS with their standard lengths only, no EOL, no padding."""
+    b = bytes.fromhex(hx)
+    i = 0
+    std = {2: 4, 3: 3, 4: 2, 8: 10}
+    while i < len(b):
+        if b[i] == 1:
+            i += 1
+        elif b[i] in std and i + 1 < len(b) and b[i + 1] == std[b[i]] and i + std[b[i]] <= len(b):
+            i += std[b[i]]
+        else:
+            return False
+    return True
+
+
 def generate(R, tier):
     n = 800 if tier == "quick" else 30000
     for _ in range(n):
@@ -83,6 +98,14 @@ def generate(R, tier):
         files = [build_file(R, pkts, msgs) for _ in range(2)]
         labels = sorted({l.split("=", 1)[1].strip() for f in files for l in f if l.startswith("label = ") and ":" in l})
         ops = [{"op": "load", "file": 0}]
+        if R.random() < 0.3:
+            # calls made BEFORE the first load: the database handed in holds nothing yet (whatever the process default holds)
+            pre = []
+            for _ in range(R.randint(1, 3)):
+                j = R.randrange(len(pkts))
+                pre.append(R.choice([{"op": "tcp", "pkt": j, "syn_mss": 0, "md": 35, "mode": "raw"}, {"op": "mtu", "pkt": j, "mode": "raw"},
+                                     {"op": "http", "payload": 0, "btype": "bytes"}]))
+            ops = pre + ops
         for _ in range(30):
             r = R.random()
             j = R.randrange(len(pkts))
@@ -98,8 +121,13 @@ def generate(R, tier):
                 ops.append({"op": "http", "payload": R.randrange(len(payloads)), "btype": R.choice(["bytes", "bytearray", "rb"])})
             elif r < 0.9 and labels:
                 ops.append({"op": "imp_tcp", "pkt": j, "label": R.choice(labels), "extra_hops": R.choice([0, 1, 3, 7])})
-            elif r < 0.95:
+            elif r < 0.93:
                 ops.append({"op": "imp_mtu", "pkt": j, "sig": R.choice(["1500", "1400"])})
+            elif r < 0.97 and simple_opts(pkts[j][0]["opts"]):
+                # (only for option areas Scapy re-serialises byte for byte once a field of the layer has been set)
+                # the caller edits its own packet object in place (a new input from then on), then fingerprints the same object again
+                ops.append({"op": "edit", "pkt": j, "win": R.choice([0, 1, 8192, 65535, pkts[j][1]["mss"] * 2 % 65536, R.randrange(65536)])})
+                ops.append({"op": "tcp", "pkt": j, "syn_mss": 0, "md": 35, "mode": "raw"})
             else:
                 ops.append({"op": "uptime", "pkt": j})
         yield {"stream": "history", "files": files, "pkts": [s for s, _, _ in pkts], "payloads": payloads, "ops": ops}
@@ -107,7 +135,13 @@ def generate(R, tier):
 
 def model_line(c):
     toks = []
+    pk = [dict(sp) for sp in c["pkts"]]          # the packets as they are NOW (in-place edits by the caller are applied in order)
+    c = dict(c, pkts=pk)
     for o in c["ops"]:
+        if o["op"] == "edit":
+            pk[o["pkt"]]["win"] = o["win"]
+            toks.append("4")
+            continue
         if o["op"] == "load":
             f = c["files"][o["file"]]
             toks.append("0 %d %s" % (len(f), " ".join(c09.hexline(l) for l in f)))
@@ -182,6 +216,10 @@ def impl_init():
                     buf = bufs[key]
                     r = fingerprint_http(buf, options=Options(database=db))
                     out.append({"http": [None if r.match is None else r.match.line_number, bool(r.dishonest)]})
+                elif o["op"] == "edit":
+                    scapy[o["pkt"]].getlayer("TCP").window = o["win"]
+                    shared.pop(o["pkt"], None)        # a parsed Packet the caller still holds describes the packet as it WAS
+                    out.append(None)
                 elif o["op"] == "imp_tcp":
                     try:
                         impersonate_tcp(scapy[o["pkt"]], raw_label=o["label"], extra_hops=o["extra_hops"], database=db)
